@@ -1282,6 +1282,9 @@ const SEEDS: &[&str] = &[
     ":host {",
     "@import",
     "@import 'a' layer(x) 5; .a{}",
+    // witnesses of repaired defects D25 / D26 (regression corpus)
+    "@import 'a' layer(base.theme);\n.b{}",
+    ": host{a:b}\n:/**/host{c:d}\n.e{}",
     "@import 'a' foo(x); .b{}",
     "@import 'a' screen { } .c{}",
     "",
